@@ -13,17 +13,17 @@ def queries(ctx):
     qs = []
     FU = ["mpz/powm.c:mpz_powm", "mpz/powm_ui.c:mpz_powm_ui", G + "powm.c:mpn_powm", G + "powlo.c:mpn_powlo", G + "binvert.c:mpn_binvert", G + "redc_1.c:mpn_redc_1",
           G + "mullow_n.c:mpn_mullow_n", G + "tdiv_qr.c:mpn_tdiv_qr", G + "mul_basecase.c:mpn_mul_basecase", G + "sqr_basecase.c:mpn_sqr_basecase"]
-    def add(name, defs, **kw):
+    def add(name, defs=None, **kw):
         qs.append(Query(name, "C08_powm_small.c", POW + MUL + DIV + LIN + BASE, defs, unwind=12, hunwind=70, timeout=600 if quick else 1500, domain="D-SMALL", funcs=FU,
                         stubs=["mpz_invert -> specification stub (inverse modulo the concrete modulus by search; asserts it receives the modulus and a temporary destination)"], **kw))
     # moduli: odd (square-free and not), powers of two, even with every small 2-adic valuation, +-1
-    MQ = (1, 2, 3, 4, 8, 9, 12, 15, 16, 18, 24, 25, 27, 32, 45, 48, 49, 63, 64)
+    MQ = (1, 2, 3, 8, 9, 12, 15, 16, 24, 63)        # quick tier sized to ~4 min on 16 cores (the 19-modulus set ran > 900 s in a fresh sandbox)
     MT = tuple(range(1, 65)) + (75, 81, 96, 121, 125, 128, 135, 225, 243, 255, 256)
     EQ = (2, 3, 6, 21)          # 21 >= 20: mpz_powm_ui forwards to mpz_powm
     ET = (2, 3, 4, 5, 6, 7, 8, 11, 16, 21, 27, 127, 128, 255, (1 << 26) + 5)      # window widths 1 (<= 7 bits), 2 (<= 25 bits), 3
     for mv in (MQ if quick else MT):
         for ev in (EQ if quick else ET):
-            for sb in ((1, -1) if ev in (2, 3) or not quick else (1,)):        # (a symbolic sign makes every size symbolic: measured memory-out)
+            for sb in ((1, -1) if (ev == 2 if quick else True) else (1,)):        # (a symbolic sign makes every size symbolic: measured memory-out)
                 add("powm.m%d.e%d.sb%d" % (mv, ev, sb), {"FN": 0, "MV": mv, "SB": "(%d)" % sb, "BB": 6 if quick else 7, "ES": 1, "EV": ev, "ALIAS": 0})
     # special exponents 0 and 1, zero base, negative modulus, aliasing, negative exponents (inverse or DIVIDE_BY_ZERO)
     for mv in ((1, 2, 9, 12, 16) if quick else (1, 2, 3, 4, 9, 12, 15, 16, 18, 25, 32, 45)):
@@ -32,16 +32,18 @@ def queries(ctx):
         add("powm.m%d.e1.bsh" % mv, {"FN": 0, "MV": mv, "SB": 1, "BB": 6, "BSH": 58, "ES": 1, "EV": 1, "ALIAS": 0})
         add("powm.m%d.e5.b0" % mv, {"FN": 0, "MV": mv, "SB": 0, "BB": 6, "ES": 1, "EV": 5, "ALIAS": 0})
         add("powm.mneg%d.e3" % mv, {"FN": 0, "MV": mv, "MS": "(-1)", "SB": "(-1)", "BB": 6, "ES": 1, "EV": 3, "ALIAS": 0})
-        for ev in ((1, 3) if quick else (1, 2, 3, 5)):
+        # negative exponents: 3.5 GB is not enough on the unchanged tree (measured memory-out / solver resource errors), so they run in the
+        # thorough tier only, with a 10 GB limit
+        for ev in (() if quick else (1, 2, 3, 5)):
             for sb in (1, -1):
-                add("powm.m%d.eneg%d.sb%d" % (mv, ev, sb), {"FN": 0, "MV": mv, "SB": "(%d)" % sb, "BB": 5, "ES": "(-1)", "EV": ev, "ALIAS": 0})
+                add("powm.m%d.eneg%d.sb%d" % (mv, ev, sb), mem_gb=10, defs={"FN": 0, "MV": mv, "SB": "(%d)" % sb, "BB": 5, "ES": "(-1)", "EV": ev, "ALIAS": 0})
         for al in (1, 2, 3):
             add("powm.m%d.e3.alias%d" % (mv, al), {"FN": 0, "MV": mv, "SB": 1, "BB": 6, "ES": 1, "EV": 3, "ALIAS": al})
     # mpz_powm_ui own code (exponents below 20)
     for mv in ((1, 2, 9, 12, 16, 63) if quick else MT):
-        for ev in ((0, 1, 2, 5, 19) if quick else (0, 1, 2, 3, 4, 5, 7, 8, 15, 16, 19)):
+        for ev in ((0, 1, 2) if quick else (0, 1, 2, 3, 4, 5, 7, 8, 15, 16, 19)):      # e >= 5: memory-out at 3.5 GB on the unchanged tree -> thorough tier, 10 GB
             for sb in ((1, -1) if ev in (2, 5) else (1,)):
-                add("powm_ui.m%d.e%d.sb%d" % (mv, ev, sb), {"FN": 1, "MV": mv, "SB": "(%d)" % sb, "BB": 6 if quick else 7, "ES": 1 if ev else 0, "EV": ev, "ALIAS": 0})
+                add("powm_ui.m%d.e%d.sb%d" % (mv, ev, sb), mem_gb=(10 if ev >= 5 else None), defs={"FN": 1, "MV": mv, "SB": "(%d)" % sb, "BB": 6 if quick else 7, "ES": 1 if ev else 0, "EV": ev, "ALIAS": 0})
         add("powm_ui.m%d.e3.alias1" % mv, {"FN": 1, "MV": mv, "SB": 1, "BB": 6, "ES": 1, "EV": 3, "ALIAS": 1})
         add("powm_ui.m%d.e2.bsh" % mv, {"FN": 1, "MV": mv, "SB": 1, "BB": 6, "BSH": 58, "ES": 1, "EV": 2, "ALIAS": 0})
     return qs
@@ -53,6 +55,6 @@ ASSUMPTIONS = [
 ]
 MANIFEST = {
  "text": "Bounded model checking of the real modular-power sources on a small-value domain: mpz_powm and mpz_powm_ui return base^exp mod |mod| in [0,|mod|) for every base value in the domain (both signs, zero, above the modulus), every enumerated exponent (0, 1, both parities, every window width up to 3, negative with an invertible or non-invertible base: inverse or DIVIDE_BY_ZERO) and every enumerated one-limb modulus (odd, even with any 2-adic valuation, powers of two, +-1), for every aliasing of the result with an operand; operands unchanged, no block leaked.",
- "note": "Bounds: one-limb moduli from the listed set (19 quick / 75 thorough), exponents from the listed set (concrete per query), |base| < 2^6 (2^7 thorough). Outside: multi-limb moduli (REDC_2/REDC_n, POWM_THRESHOLD crossovers, whole zero low limbs), symbolic exponents, mpz_pow_ui/mpz_ui_pow_ui/mpz_n_pow_ui (measured: the size estimate makes every later size symbolic and the query does not finish in 400 s even for e = 2 and 8-bit bases), general operand values (products of symbolic 64-bit residues: DESIGN 1, R4).",
+ "note": "Bounds: one-limb moduli from the listed set (10 quick / 75 thorough), exponents from the listed set (concrete per query; negative exponents and mpz_powm_ui exponents >= 5 in the thorough tier only: they need more than the 3.5 GB quick budget), |base| < 2^6 (2^7 thorough). Outside: multi-limb moduli (REDC_2/REDC_n, POWM_THRESHOLD crossovers, whole zero low limbs), symbolic exponents, mpz_pow_ui/mpz_ui_pow_ui/mpz_n_pow_ui (measured: the size estimate makes every later size symbolic and the query does not finish in 400 s even for e = 2 and 8-bit bases), general operand values (products of symbolic 64-bit residues: DESIGN 1, R4).",
  "technique": "bounded symbolic execution of the real C sources with CBMC (SAT) on a small-value domain: concrete modulus and exponent per query x symbolic base, square-and-multiply reference in narrow arithmetic, specification stub for mpz_invert, native replay of counterexamples",
 }
